@@ -64,7 +64,7 @@ func (c19) ID() string    { return "C19" }
 func (c19) RunFn() string { return "run_C19" }
 func (c19) Workers() int  { return 8 }
 func (c19) Rule() string {
-	return "random (base, factor, cap) in [1, 2^40] (small values, powers of two, values at and just below 2^40, zero = default; the defaults are read from the live code through VerifBackoffDefaults, only 'at most three minutes when the cap is left unset' is a literal of the property), with and without jitter (a jittered delay is compared through its range only: 0 <= delay <= the no-jitter delay of that attempt, any resolution), through durationForAttempt(n) (n = 0..70, around the attempt where base*factor^n passes the cap, around the attempts where factor^n and base*factor^n overflow float64, 2^31-1 / 2^31 / 2^31+1, random up to 2^31, 2^53, 2^62, MaxInt64), duration() sequences (up to 70 calls, a few past the float64 overflow point) and duration() sequences after k calls and reset(); cap below / equal to the base and cap = base*factor^k-1, +0, +1 (with attempt 0, factor 1 and the attempts around k) through both APIs; StreamManager scenarios (real Client + StreamManager on the scripted TCP server: session, drop, 5-8 transient negotiation failures, success, second drop, 2-3 failures, success, Stop): the wait after the n-th failed attempt of EVERY outage, measured on the server between the end of that attempt and the next accept, is at most default_base*default_factor^n ms + 500 ms slack (defaults read from the live code), i.e. the sequence restarts after a successful reconnection (Coq: C19_outages_restart / C19_formula_seq_after_reset give the bounds the model returns for the observed attempt counts; C19_jitter_range makes the no-jitter value the bound); a malformed stream with negative caps (rand.Intn panic) and a few fixed caps above the stated bound (D22); distinct = distinct (mode, jitter, bit lengths of base/factor/cap, class of n relative to the cap crossing / float overflow); non-trivial = positive parameters within the bound, factor >= 2, base < cap and at least one observed attempt number >= 1"
+	return "random (base, factor, cap) in [1, 2^40] (small values, powers of two, values at and just below 2^40, zero = default; the defaults are read from the live code through VerifBackoffDefaults, only 'at most three minutes when the cap is left unset' is a literal of the property), with and without jitter (a jittered delay is compared through its range only: 0 <= delay <= the no-jitter delay of that attempt, any resolution), through durationForAttempt(n) (n = 0..70, around the attempt where base*factor^n passes the cap, around the attempts where factor^n and base*factor^n overflow float64, 2^31-1 / 2^31 / 2^31+1, random up to 2^31, 2^53, 2^62, MaxInt64), duration() sequences (up to 70 calls, a few past the float64 overflow point) and duration() sequences after k calls and reset(); cap below / equal to the base and cap = base*factor^k-1, +0, +1 (with attempt 0, factor 1 and the attempts around k) through both APIs; StreamManager scenarios (real Client + StreamManager on the scripted TCP server: session, drop, 5-8 transient negotiation failures, success, second drop, 2-3 failures, success, Stop): the wait after the n-th failed attempt of EVERY outage, measured on the server between the end of that attempt and the next accept, is at most default_base*default_factor^n ms + 500 ms slack (defaults read from the live code), i.e. the sequence restarts after a successful reconnection (Coq: C19_outages_restart / C19_formula_seq_after_reset give the bounds the model returns for the observed attempt counts; C19_jitter_range makes the no-jitter value the bound); a malformed stream outside the property's quantification (negative base / factor / cap, negative attempt numbers: both sides answer a constant, the call only has to leave the harness alive) and a few fixed caps above the stated bound (D22); distinct = distinct (mode, jitter, bit lengths of base/factor/cap, class of n relative to the cap crossing / float overflow); non-trivial = positive parameters within the bound, factor >= 2, base < cap and at least one observed attempt number >= 1"
 }
 
 // ---- exact arithmetic shared by generator and oracle (math/big; no model) ----
@@ -317,6 +317,10 @@ func (c19) Gen(r *rand.Rand, tier string) []interface{} {
 			in.Cap = -1 - r.Intn(1000)
 		case 5:
 			in.Cap = -c19Val(r)
+		case 6:
+			in.Base = -c19Val(r)
+		case 7:
+			in.Factor = -1 - r.Intn(5)
 		}
 		if r.Intn(3) == 0 { // make base well below cap so that the growth phase is long
 			in.Base = 1 + r.Intn(50)
@@ -364,6 +368,9 @@ func (c19) Gen(r *rand.Rand, tier string) []interface{} {
 				}
 			} else if ec > 0 && ec <= eb && r.Intn(2) == 0 {
 				in.N = r.Intn(2)
+			}
+			if r.Intn(60) == 0 { // malformed: a negative attempt number
+				in.N = -1 - r.Intn(70)
 			}
 		case m < 8:
 			in.Mode = 1
@@ -413,28 +420,22 @@ func (c19) Run(inp interface{}) (obs Sx) {
 	if in.Mode != 0 {
 		noDelay = L(L(Z(1)))
 	}
+	if c19OutOfDomain(in) {
+		// not an input the property speaks about: the call only has to leave the harness alive
+		func() {
+			defer func() {
+				if e := recover(); e != nil {
+					in.panicked = true
+				}
+			}()
+			in.ns, in.panicked = c19Call(in)
+		}()
+		return L(Z(9))
+	}
 	ds, panicked := c19Call(in)
 	in.ns, in.panicked = ds, panicked
 	if panicked {
 		return noDelay
-	}
-	// Outside the property (non-positive effective cap, with jitter) the draw has an empty
-	// range: the code panics in rand.Intn; returning the non-positive ceiling instead is just
-	// as good. Both are observed as "no delay drawn".
-	if _, _, cp := c19Eff(in); cp <= 0 && !in.NoJitter {
-		calls, nonpos := in.N, true
-		if in.Mode == 0 {
-			calls = 1
-		} else if in.Mode == 2 {
-			calls += in.K
-		}
-		for _, d := range ds {
-			nonpos = nonpos && d <= 0
-		}
-		if calls > 0 && nonpos {
-			in.panicked, in.ns = true, nil
-			return noDelay
-		}
 	}
 	one := func(ns int64) Sx { return L(Z(0), Z(ns)) }
 	if in.Mode == 0 {
@@ -445,6 +446,13 @@ func (c19) Run(inp interface{}) (obs Sx) {
 		items[i] = one(d)
 	}
 	return LS(items)
+}
+
+// c19OutOfDomain: a non-positive base, factor or cap (after the defaults: a 0 field is unset
+// and inside the domain as long as its default is positive) or a negative attempt number.
+func c19OutOfDomain(in *c19In) bool {
+	base, factor, cp := c19Eff(in)
+	return base <= 0 || factor <= 0 || cp <= 0 || (in.Mode == 0 && in.N < 0)
 }
 
 // c19Call drives the real code; panicked = the random draw refused its argument
@@ -481,6 +489,9 @@ func (c19) Input(inp interface{}) Sx {
 	if !in.ran {
 		panic("c19: Input called before Run (the jitter oracle values come from the observation)")
 	}
+	if in.Mode == 3 && in.smErr == "skipped" {
+		return L(Z(3), B(true), Z(0), Z(0), Z(0), Z(0), Z(0), L())
+	}
 	if in.Mode == 3 {
 		ms := make([]Sx, len(in.smFails))
 		for i, m := range in.smFails {
@@ -510,8 +521,8 @@ func (c19) Oracle(inp interface{}, obs Sx) (string, string) {
 		return c19OracleSM(in)
 	}
 	base, factor, cp := c19Eff(in)
-	if in.Base < 0 || in.Factor < 0 || in.Cap < 0 {
-		return "", "" // the property speaks about positive parameters only
+	if in.Base < 0 || in.Factor < 0 || in.Cap < 0 || (in.Mode == 0 && in.N < 0) {
+		return "", "" // the property speaks about positive parameters and attempts >= 0 only
 	}
 	if base <= 0 || factor <= 0 || cp <= 0 {
 		// only possible through a default: an unset field took a non-positive constant.
@@ -606,7 +617,7 @@ func (c19) Key(inp interface{}) (string, bool) {
 	base, factor, cp := c19Eff(in)
 	stream := "valid"
 	switch {
-	case cp < 0:
+	case c19OutOfDomain(in):
 		stream = "malformed-negative-cap"
 	case base > c19Bound || factor > c19Bound || cp > c19Bound:
 		stream = "above-bound"
@@ -685,7 +696,7 @@ func c19RunSM(in *c19In) Sx {
 		// the retry loop's rand.Intn would panic in the library's own goroutine and take the
 		// whole harness down; the all-unset jitter cases of modes 0-2 observe that panic
 		in.smErr = "skipped"
-		return L(SBytes("skipped"))
+		return L(Z(9))
 	}
 	fail := func(why string) Sx {
 		in.smErr = why
@@ -914,30 +925,21 @@ func c19OracleSM(in *c19In) (string, string) {
 	return "", ""
 }
 
-// c19OracleBadDefault: an unset field took a default that is not positive.
+// c19OracleBadDefault: an unset field took a default that is not positive (the observation
+// is the out-of-domain constant; what the code did is in the stash filled by Run).
 func c19OracleBadDefault(in *c19In, obs Sx, base, factor, cp int) (string, string) {
 	mode := []string{"query", "seq", "reset"}[in.Mode]
 	where := fmt.Sprintf("%s nojitter=%v base=%d factor=%d cap=%d (unset fields took the defaults %d/%d/%d)", mode, in.NoJitter, in.Base, in.Factor, in.Cap, base, factor, cp)
-	calls := []Sx{obs}
-	if in.Mode != 0 {
-		calls = obs.L
+	if in.panicked {
+		return where + ": the call panicked", "default-not-positive"
 	}
-	for i, c := range calls {
+	for i, d := range in.ns {
 		attempt := i
 		if in.Mode == 0 {
 			attempt = in.N
 		}
-		if c.K != "l" || len(c.L) == 0 {
-			return "malformed observation", "shape"
-		}
-		if len(c.L) == 1 && c.L[0].K == "l" { // ((1)): a sequence that panicked
-			c = c.L[0]
-		}
-		if c.L[0].Z == 1 {
-			return where + ": rand.Intn panicked", "default-not-positive"
-		}
-		if len(c.L) == 2 && in.NoJitter && c.L[1].Z <= 0 {
-			return fmt.Sprintf("%s attempt %d: delay %d ns, not positive (min(cap, base*factor^n) is at least 1 ms for positive parameters)", where, attempt, c.L[1].Z), "default-not-positive"
+		if in.NoJitter && d <= 0 {
+			return fmt.Sprintf("%s attempt %d: delay %d ns, not positive (min(cap, base*factor^n) is at least 1 ms for positive parameters)", where, attempt, d), "default-not-positive"
 		}
 	}
 	return "", ""
